@@ -530,3 +530,15 @@ def run(c, prog, ctx):
     _flags_tags(c, prog)
     c.floor("R1.taproot.row", 36, "36 spec rows")
     c.floor("R2.segwit.row", 18, "18 spec rows")
+
+    # the ANYONECANPAY split the guards above rely on, as an exact table over every variant of the hash type
+    from .predicates import split_table as _split_table
+    for _p in ("sighash::SchnorrSighashType::split_anyonecanpay_flag", "transaction::EcdsaSighashType::split_anyonecanpay_flag"):
+        _f, _t = _split_table(prog, _p)
+        _bad = []
+        for _d, (_name, _r) in sorted(_t.items()):
+            _acp = _name.endswith("PlusAnyoneCanPay")
+            _base = _name[:-len("PlusAnyoneCanPay")] if _acp else _name
+            if _r != (_base, int(_acp)):
+                _bad.append((_name, _r))
+        c.inst("R5.acp-split-table", _p.split("::")[-2], not _bad and len(_t) >= 6, "table %s; deviations %s" % ({k: v[1] for k, v in _t.items()}, _bad), _f.where(), _p)
